@@ -89,6 +89,16 @@ claim("C10", "other",
       "rows is covered by C07/C08. The comparison must have the form len == / != len, otherwise the check fails closed.",
       "MIR dominators + operand-origin tracing + field-write census", "DESIGN.md section 4, C10")
 
+claim("C11", "other",
+      "Path-effect summary of the CustomWithExpr substitution loop and of inject_parameters: every path through one iteration "
+      "is classified (token written back / doubled mark reduced to one / mark replaced by values[counter] with counter+1 / "
+      "mark+number replaced by values[n-1]); a path that consumes tokens and emits nothing or something else is reported. The "
+      "arm-selection table (token kind x mark x numbered x counter x value count) shows that a placeholder mark can never take "
+      "the verbatim path. The mark is placeholder() of the rendering backend; the constructors keep template and values in order.",
+      "How template text is split into tokens is C16. Not decided: inject_parameters(build(s)) == to_string(s) for every "
+      "statement (re-lexing of every literal form); out-of-range placeholders panic by design.",
+      "loop path-effect summaries + arm-selection table by abstract interpretation", "DESIGN.md section 4, C11")
+
 claim("C12", "other",
       "Exhaustive over every From/Nullable/ValueType impl present in the all-features build (about 40 types), every tuple "
       "arity 1..12 and every Value variant: variant pairing (one variant per type across From, null, try_from, array_type), "
